@@ -3,12 +3,12 @@
    checked against the reference; the per-case verdicts are written to IOEnv.VERIF_OUT first (so
    that a rejected case can be named), then TLC ASSUMEs that no case is bad.
 
-   VERIF_MODE = "match": seeded random patterns beyond the exhaustive bound
+   kind = "match": seeded random patterns beyond the exhaustive bound
        [case, ast, paths (code sequences), ok (ParsePathPattern accepted), n (NumVariants),
         calls (RenderAllVariants callbacks), m (PathPatternMatches per path: 0/1, 2 = error)]
      must satisfy  ok = Accepted(ast),  n = calls = NumVariants(ast),  m[j] = RefMatch(ast, paths[j]).
 
-   VERIF_MODE = "prec": precedence among variants that all match a path
+   kind = "set": precedence among variants that all match a path
        [case, k (number of variants), cmp (k x k matrix of PatternVariant.Compare: -1/0/1,
         2 = error), same (k x k: 1 iff the two variants are the same string),
         perms (permutations of 1..k), winners (index chosen by HighestPrecedencePattern when the
@@ -24,7 +24,7 @@ MatchRow(o) ==
     LET cnt == NumVariants(o.ast)
         acc == cnt <= Limit
         ex == IF acc THEN Expand(o.ast) ELSE <<>>
-    IN  [case |-> o.case, exp_ok |-> acc, exp_n |-> cnt,
+    IN  [kind |-> "match", case |-> o.case, exp_ok |-> acc, exp_n |-> cnt,
          exp_m |-> IF acc THEN Force([j \in 1..Len(o.paths) |-> Bit(\E i \in 1..Len(ex) : PPM(ex[i], o.paths[j]))])
                    ELSE <<>>,
          got_ok |-> o.ok, got_n |-> o.n, got_calls |-> o.calls, got_m |-> o.m]
@@ -44,17 +44,16 @@ PrecRow(o) ==
         Maxima == {i \in K : \A j \in K : o.same[i][j] = 1 \/ c[i][j] = 1}
         winnersmax == \A p \in 1..Len(o.perms) : o.winners[p] \in Maxima
         oneclass == \A i, j \in Maxima : o.same[i][j] = 1
-    IN  [case |-> o.case, noerror |-> noerror, irreflexive |-> irreflexive, asymmetric |-> asymmetric,
+    IN  [kind |-> "set", case |-> o.case, noerror |-> noerror, irreflexive |-> irreflexive, asymmetric |-> asymmetric,
          transitive |-> transitive, tiesidentical |-> tiesidentical, winnersmax |-> winnersmax,
          oneclass |-> oneclass /\ Maxima # {}]
 PrecBad(r) == ~(r.noerror /\ r.irreflexive /\ r.asymmetric /\ r.transitive /\ r.tiesidentical /\ r.winnersmax /\ r.oneclass)
 
 Check(obs) ==
-    LET match == IOEnv.VERIF_MODE = "match"
-        rows == Force([i \in 1..Len(obs) |-> IF match THEN MatchRow(obs[i]) ELSE PrecRow(obs[i])])
+    LET rows == Force([i \in 1..Len(obs) |-> IF obs[i].kind = "match" THEN MatchRow(obs[i]) ELSE PrecRow(obs[i])])
     IN  JsonSerialize(IOEnv.VERIF_OUT,
                       [checked |-> Len(obs),
-                       bad |-> SelectSeq(rows, LAMBDA r : IF match THEN MatchBad(r) ELSE PrecBad(r))])
+                       bad |-> SelectSeq(rows, LAMBDA r : IF r.kind = "match" THEN MatchBad(r) ELSE PrecBad(r))])
 
 TRInit == x = 1
 ASSUME Check(ndJsonDeserialize(IOEnv.VERIF_TRACE))
